@@ -1349,6 +1349,31 @@ struct SpecState {
 }
 
 fn c13(ctx: &mut Ctx) -> Option<Failure> {
+    // call orders: a state may be marked final / given a default before any transition mentions it
+    let r0 = ctx.case(|| {
+        let mut b = AutomatonBuilder::new(&10u32);
+        b.mark_final(&11u32);
+        b.set_default_successor(&12u32, &12u32);
+        b.add_transition(&10u32, &CharSet::singleton(97), &11u32);
+        b.add_transition(&11u32, &CharSet::singleton(97), &10u32);
+        b.set_default_successor(&10u32, &12u32);
+        b.set_default_successor(&11u32, &12u32);
+        match b.build() {
+            Err(e) => fail("AutomatonBuilder::build(call order)", "new(10); mark_final(11); default(12,12); 10-a->11; 11-a->10; defaults to 12".into(), "Ok".into(), format!("{:?}", e)),
+            Ok(a) => {
+                let acc = |w: &[u32]| a.accepts(&SmtString::from(w));
+                if a.num_states() != 3 || a.num_final_states() != 1 || acc(&[]) || !acc(&[97]) || acc(&[97, 97]) || !acc(&[97, 97, 97]) || acc(&[98]) {
+                    fail("AutomatonBuilder::mark_final(call order)", "new(10); mark_final(11); default(12,12); 10-a->11; 11-a->10; defaults to 12".into(),
+                         "3 states, 1 final, accepts exactly a^(odd)".into(), format!("{} states, {} final, a accepted: {}", a.num_states(), a.num_final_states(), acc(&[97])))
+                } else {
+                    None
+                }
+            }
+        }
+    });
+    if r0.is_some() {
+        return r0;
+    }
     let labels: Vec<(u32, u32)> = vec![(0, 9), (10, 19), (20, MAXC), (0, MAXC), (5, 14), (97, 97), (98, 98), (97, 99), (0, 96), (100, MAXC), (98, 100)];
     for round in 0..6000 {
         if ctx.out_of_time() {
